@@ -16,7 +16,9 @@ IntDst   == {"int8", "int16", "int32", "int64", "int", "uint8", "uint16", "uint3
 FloatDst == {"float32", "float64"}
 BigDst   == {"bigint", "pbigint", "bigfloat"}
 IntForms == {"pint", "nint", "int", "bigint"}
-Forms    == {"pint", "nint", "int", "bigint", "float", "dfloat", "bigdfloat", "bigfloat"}
+(* "-exp": the decimal forms with the trailing zeros of a whole number moved *)
+(* into the exponent (1e19 rather than 10000000000000000000)                *)
+Forms    == {"pint", "nint", "int", "bigint", "float", "dfloat", "bigdfloat", "bigfloat", "dfloat-exp", "bigdfloat-exp"}
 
 (* which forms can carry point i *)
 U64Max == Range("uint64")[2]
@@ -30,7 +32,7 @@ CanCarry(form, i) ==
     [] form = "bigint" -> p.int
     [] form = "float" -> p.f64
     [] form = "bigfloat" -> p.f64            \* big floats exact in float64 (others have no CBE form)
-    [] form \in {"dfloat", "bigdfloat"} -> p.dec
+    [] form \in {"dfloat", "bigdfloat", "dfloat-exp", "bigdfloat-exp"} -> p.dec
 
 (* the destination's range *)
 InRange(i, dst) == i >= Range(dst)[1] /\ i <= Range(dst)[2]
